@@ -142,9 +142,8 @@ Proof.
     destruct Hn as (Hasc & _). rewrite Hasc. cbn [negb].
     unfold first_build_id. cbn [find]. fold (is_build_id n).
     destruct (is_build_id n) eqn:Eb.
-    + unfold is_build_id in Eb. rewrite Eb. reflexivity.
-    + unfold is_build_id in Eb. rewrite Eb.
-      destruct (align_up_mult a (rel1 a n + length (n_desc n)) Ha) as (k2 & Hk2). fold (rel2 a n) in Hk2.
+    + reflexivity.
+    + destruct (align_up_mult a (rel1 a n + length (n_desc n)) Ha) as (k2 & Hk2). fold (rel2 a n) in Hk2.
       specialize (IH f (pre ++ enc_note a n) (k + k2)).
       rewrite <- app_assoc in IH. rewrite app_length in IH. apply IH.
       * rewrite Ln, Hk, Hk2. lia.
@@ -214,10 +213,13 @@ Qed.
 
 (* not vacuous: a section with a non-GNU note first, 8-byte alignment *)
 Example roundtrip_example :
-  let ns := [ {| n_name := [88; 89]; n_desc := [1; 2; 3]; n_type := 1%N |};
-              {| n_name := GNU; n_desc := [9; 8; 7; 6; 5]; n_type := 3%N |} ] in
-  Forall wf_note ns /\ first_build_id ns = Some [9; 8; 7; 6; 5]%N /\ length (enc_notes 8 ns) = 56.
-Proof. cbn. repeat split; repeat constructor; cbn; lia. Qed.
+  let ns := [ {| n_name := [88; 89]%N; n_desc := [1; 2; 3]%N; n_type := 1%N |};
+              {| n_name := GNU; n_desc := [9; 8; 7; 6; 5]%N; n_type := 3%N |} ] in
+  Forall wf_note ns /\ first_build_id ns = Some [9; 8; 7; 6; 5]%N /\ length (enc_notes 8 ns) = 48.
+Proof.
+  intro ns. split; [|split; [reflexivity|vm_compute; reflexivity]].
+  repeat constructor; cbn; lia.
+Qed.
 
 Print Assumptions note_search_roundtrip.
 Print Assumptions find_build_id_note_roundtrip.
